@@ -23,6 +23,7 @@ var _ = storage.ErrNotExist
 // Ghost response state (owned by the assumed contracts of net/http).
 func ghost_status(w http.ResponseWriter) int { panic("ghost") }
 func ghost_rendered(w io.Writer) any         { panic("ghost") }
+func ghost_wcontent(w io.Writer) vcTok       { panic("ghost") }
 
 // ---------------------------------------------------------------------------------------------
 // C14: the REST v1 handlers report and change exactly what the manager holds.
@@ -112,6 +113,8 @@ func spec_showsMsg(r any, name string, m *message.Message) bool {
 //@         message.Ghost_argBox(ctx.Manager) == message.Ghost_lastName(ctx.Manager) && message.Ghost_argID(ctx.Manager) == ctx.Vars["id"])
 //@   ensures[missing404] message.Ghost_nSource(ctx.Manager) == old(message.Ghost_nSource(ctx.Manager)) + 1 && message.Ghost_lastErr(ctx.Manager) == storage.ErrNotExist ==>
 //@      err == nil && ghost_status(w) == 404
+//@   ensures[copiesSource C02] err == nil && message.Ghost_nSource(ctx.Manager) == old(message.Ghost_nSource(ctx.Manager)) + 1 && message.Ghost_lastErr(ctx.Manager) == nil ==>
+//@      ghost_wcontent(w) == vcTokCat(old(ghost_wcontent(w)), message.Ghost_lastSrcContent(ctx.Manager))
 //@   serves C14 C02
 
 // Delete: exactly one RemoveMessage(name, id); ErrNotExist is 404.
